@@ -119,7 +119,9 @@ Proof.
   - apply pres_create_topic.
   - apply pres_delete_topic.
   - apply pres_create_cft.
-  - apply keeps_preserves; [apply ks_delete_cft|intros; discriminate].
+  - apply keeps_preserves; [apply ks_delete_cft|].
+    intros p; unfold delete_cft; destruct (find_first (is_cft name) (pa_cfts p)); [|discriminate].
+    destruct (existsb (uses_topic name) (pa_subs p)); discriminate.
   - apply pres_create_endpoint.
   - apply pres_delete_endpoint.
   - apply pres_delete_contained.
